@@ -54,7 +54,7 @@ int World::exec_meta(const Op &op) {
         int form = ((unsigned) a[1]) % 3;
         DataType dt = kVarTypes[((unsigned) a[2]) % 7];
         int invalid = ((unsigned) a[3]) % 16;
-        std::string name = op.s;
+        std::string name = resolve_name(op.s, "");
         if (a[5] == 1 && s.propertyCount()) name = s.getProperty((ndsize_t) 0).id();
         bool dup = s.hasProperty(name);
         bool badname = name.empty() || name.find('/') != std::string::npos;
@@ -166,7 +166,7 @@ int create_frame_op(World &w, const Op &op) {
     static const char *cu[] = {"", "mV", "s", "Hz", "", "m / s", "\xc2\xb5V", "muA", "kg m^2", " ms", "arb. u.", "1/mus"};
     for (int i = 0; i < ncols; i++) { Column c; c.name = "c" + std::to_string(i); c.unit = cu[r.below(r.chance(1, 2) ? 4 : 12)]; c.dtype = kVarTypes[r.below(7)]; cols.push_back(c); }
     int invalid = ((unsigned) a[2]) % 20;
-    std::string name = op.s;
+    std::string name = w.resolve_name(op.s, "/data/" + b.name() + "/data_frames");
     bool dup = b.hasDataFrame(name);
     bool badname = name.empty() || name.find('/') != std::string::npos;
     std::string type = w.pick_type(a[1]);
